@@ -217,9 +217,39 @@ def _ret_formula(ret, got, exc, D, tags):
 
 
 # ---------------------------------------------------------------------------
+FALLBACK_STATES = [
+    # (j, state [[disk, cached, loaded, err] per key], en)
+    (0, [[True, True, True, False], [True, True, False, False], [False, False, False, False]], False),
+    (2, [[True, True, True, False], [True, True, False, False], [False, False, False, False]], False),
+    (0, [[True, True, True, True], [True, False, False, False], [True, True, True, False]], False),
+    (1, [[True, True, False, False], [True, False, False, False], [False, False, False, False]], True),
+]
+
+
+def _cycle():
+    n = [0]
+
+    def sampler(rng):
+        n[0] += 1
+        return {"i": n[0] - 1}
+
+    return sampler
+
+
+def replay_generic_step(point, kind):
+    """fall-back (used by the framework if the symbolic run of a case cannot complete): canonical states, every aspect"""
+    j, state, en = FALLBACK_STATES[int(point.get("i", 0)) % len(FALLBACK_STATES)]
+    for aspect in ("derived", "ret", "view", "disk"):
+        r = replay_step(point, kind, j if kind in NEEDS_KEY else None, state, en, aspect)
+        if r:
+            return r
+    return None
+
+
 def case_step(log, kind, err_all=False, readback=False):
     log.encode(*iofs.encoded_functions())
     decide = iofs.Decider(log)
+    log.register_replay("%s:fallback" % kind, (MOD, "replay_generic_step", {"kind": kind}), _cycle())
 
     def run():
         fs = FS()
@@ -347,6 +377,16 @@ def case_approx(log, n, defaults=False, signed=False):
 
     log.encode(st.EKO.approx, st.EKO.__iter__)
     decide = iofs.Decider(log)
+    _cands = _approx_candidates(n, defaults)
+    _smp = _approx_sampler(n)
+    _cnt = [0]
+
+    def _fb_sampler(rng):
+        _cnt[0] += 1
+        return _cands[_cnt[0] - 1] if _cnt[0] <= len(_cands) else _smp(rng)
+
+    for pattern in ([True] * n, [True] + [False] * (n - 1)):
+        log.register_replay("EKO.approx:fallback", (MOD, "replay_approx", {"n": n, "same": pattern, "defaults": defaults}), _fb_sampler)
     from symx.poly import float_to_fraction
 
     RT, AT = float_to_fraction(1e-6), float_to_fraction(1e-10)  # the engine's reading of the default arguments: 1/10^6, 1/10^10
@@ -664,6 +704,7 @@ def main():
     chk.bounds = [
         "store: 3 concrete keys (100.0,5), (400.0,5), (900.0,6); pre-state arbitrary valid (per key disk/cached/loaded flags z3 Bools, payload tag z3 Int; "
         "error-array flag symbolic for the key being set in the quick tier, for all keys in the thorough tier)",
+        "the derived listings EKO.evolgrid, EKO.mu2grid and EKO.raw['mu2grid'] are read before and after every step and must list what iteration yields afterwards",
         "one inductive step for each operation kind {set (insert and overwrite), get, del (unload one), contains, iterate, items, sync, unload (all), close+reopen} "
         "with symbolic key index; thorough tier adds a second step get(k) for every k after each first step",
         "approx: 1..3 stored points with symbolic real scales (positive in the quick tier, any sign in the thorough tier), same/different nf pattern symbolic, "
